@@ -921,6 +921,9 @@ class MayRaise:
                 if len(binds) == 1 and isinstance(binds[0], ast.Call) and isinstance(binds[0].func, ast.Attribute) and binds[0].func.attr == "to_bytes" and binds[0].args:
                     nl, nh = self.ival(binds[0].args[0], facts, fi)
                     return (max(0, nl), min(MAXSIZE, nh))
+                ub = self.collected_len_bound(a0.id, binds, fi)
+                if ub is not None:
+                    return (0, ub)
             return (0, MAXSIZE)        # len() is a Py_ssize_t
         if isinstance(e, ast.Call) and isinstance(e.func, ast.Name) and e.func.id not in fi.params():
             q = self.m.resolve_name(fi.module, e.func.id)
@@ -934,6 +937,74 @@ class MayRaise:
                 return (0, int(xh).bit_length())
             return (0, INF)
         return (lo, hi)
+
+    def collected_len_bound(self, name: str, binds: List[ast.expr], fi: FuncInfo) -> Optional[int]:
+        """Upper bound of len(<name>) for a local that starts as an empty bytearray/list and is only grown one element at a
+        time: once per iteration of `while n:` loops that shift n right by a constant k each time (at most ceil(bits(n)/k)
+        iterations for 0 <= n <= M), and by straight-line appends (one each)."""
+        if len(binds) != 1:
+            return None
+        b = binds[0]
+        empty = (isinstance(b, ast.Call) and isinstance(b.func, ast.Name) and b.func.id in ("bytearray", "list") and not b.args and not b.keywords) or \
+                (isinstance(b, ast.List) and not b.elts)
+        if not empty or name in fi.params():
+            return None
+        grow = [c for c in walk_no_nested(fi.node) if isinstance(c, ast.Call) and isinstance(c.func, ast.Attribute) and norm(c.func.value) == name
+                and c.func.attr in ("append", "extend", "insert", "__iadd__")]
+        if any(c.func.attr != "append" for c in grow):
+            return None
+        if any(isinstance(x, ast.AugAssign) and isinstance(x.target, ast.Name) and x.target.id == name for x in walk_no_nested(fi.node)):
+            return None
+        # the name must not escape to a callee that could grow it, nor be aliased
+        for x in walk_no_nested(fi.node):
+            if isinstance(x, ast.Call) and x not in grow and any(isinstance(a, ast.Name) and a.id == name for a in list(x.args) + [k.value for k in x.keywords]):
+                fn = norm(x.func)
+                if fn not in ("len", "bytes", "bytearray", "reversed", "memoryview", "list", "tuple", "sum", "min", "max") and not fn.endswith(".extend") and not fn.endswith(".join"):
+                    return None
+            if isinstance(x, (ast.Assign, ast.AnnAssign)) and isinstance(x.value, ast.Name) and x.value.id == name:
+                return None
+        loops = [w for w in walk_no_nested(fi.node) if isinstance(w, (ast.While, ast.For))]
+        total = 0
+        for c in grow:
+            owner = [w for w in loops if any(y is c for y in ast.walk(w))]
+            if not owner:
+                total += 1
+                continue
+            if len(owner) != 1 or not isinstance(owner[0], ast.While):
+                return None
+            w = owner[0]
+            t_ = w.test
+            if isinstance(t_, ast.Compare) and len(t_.ops) == 1 and isinstance(t_.left, ast.Name) and const_int(t_.comparators[0]) == 0 and isinstance(t_.ops[0], (ast.Gt, ast.NotEq)):
+                t_ = t_.left
+            if not isinstance(t_, ast.Name) or w.orelse:
+                return None
+            n = t_.id
+            # exactly this append at the top level of the body, n only shifted right by a constant
+            if not any(isinstance(s_, ast.Expr) and s_.value is c for s_ in w.body):
+                return None
+            if sum(1 for g in grow if any(y is g for y in ast.walk(w))) != 1:
+                return None
+            stores = [x for x in ast.walk(w) if isinstance(x, ast.Name) and x.id == n and isinstance(x.ctx, ast.Store)]
+            shifts = [x for x in w.body if isinstance(x, ast.AugAssign) and isinstance(x.target, ast.Name) and x.target.id == n and isinstance(x.op, ast.RShift)
+                      and (const_int(x.value) or 0) >= 1]
+            if len(stores) != 1 or len(shifts) != 1 or any(isinstance(x, (ast.Continue,)) for x in ast.walk(w)):
+                return None
+            k = const_int(shifts[0].value)
+            # the value n has when the loop is entered
+            outside = [x for x in walk_no_nested(fi.node) if isinstance(x, ast.Name) and x.id == n and isinstance(x.ctx, ast.Store) and x is not stores[0]]
+            if n in fi.params() and not outside:
+                entry = self.param_facts(fi)
+                nl, nh = self.ival(ast.Name(id=n, ctx=ast.Load()), entry, fi)
+            else:
+                nb = [x.value for x in walk_no_nested(fi.node) if isinstance(x, (ast.Assign, ast.AnnAssign)) and x.value is not None and
+                      any(isinstance(tt, ast.Name) and tt.id == n for tt in (x.targets if isinstance(x, ast.Assign) else [x.target]))]
+                if len(nb) != 1 or len(outside) != 1 or n in fi.params():
+                    return None
+                nl, nh = self.ival(nb[0], frozenset(), fi)
+            if nl < 0 or nh == INF:
+                return None
+            total += -(-int(nh).bit_length() // k)
+        return total
 
     # ------------------------------------------------------------------ calls
     def exact_class(self, recv: ast.expr, fi: FuncInfo, ctx=None) -> Optional[str]:
